@@ -28,6 +28,7 @@ class CatModel:
         self.ring_cap = self._ring_cap()
         self.cb_havoc = True
         self.overrides = {}
+        self.opaque = None        # None: inline everything; else the set of functions that may be inlined
 
     # ------------------------------------------------------------------ types
     def _index_types(self):
@@ -479,6 +480,20 @@ class CatModel:
     # ---------------------------------------------------------------- overrides
     def override(self, fname):
         return self.overrides.get(fname)
+
+    def opaque_call(self, it, fn, args, s, n):
+        """shallow mode: a callee that is not inlined may do anything to the parser object"""
+        s.ev('call_opaque', n, name=fn['name'], args=list(args))
+        for k in [k for k in s.mem if k[0] == 'S' and k not in (('S', 'desc'), ('S', 'io'), ('S', 'mutex'))]:
+            del s.mem[k]
+        s.facts.drop_atoms(lambda a: a.startswith('f:'))
+        s.ghost = {}
+        rt = fn['type']['qualType'].split('(')[0].strip()
+        if rt == 'void':
+            return [(s, None)]
+        if it.prog.int_type(rt) is not None:
+            return [(s, self.fresh_site(s, it, n, 'R@%s' % fn['name'], rt))]
+        return [(s, TOP)]
 
     # flat command index -> (group, command): summaries of the two lookup helpers.  Their bodies
     # are checked against these summaries by the FLATIDX rule (rules/flatidx.py).
